@@ -594,9 +594,15 @@ def run(ctx):
     ok = len(adds) == 1 and any(k.arg == 'action' and isinstance(k.value, ast.Constant) and k.value.value == 'store_true' for k in adds[0].keywords)
     ctx.check(ok, 'Z4', '--verbose is an opt-in flag (off by default)', key=('Z4', 'flag'))
     lm_ = ctx.func('ikesa.IkeSa.log_msg')
-    ctx.check(any(isinstance(c.func, ast.Attribute) and src(c.func) == 'logging.log' and src(c.args[0]) == lm_.call_params()[0]
-                  for c in calls_in(lm_.node)), 'Z4', 'IkeSa.log_msg emits at the level it is given', key=('Z4', 'log_msg'),
-              site=ctx.site(lm_, lm_.node))
+    # (by value: the level that reaches logging.log is the parameter itself on every path - not one raised, lowered or replaced on the
+    # way; the classification of every log_msg / log_debug call site above rests on this)
+    LM = ctx.sval(lm_)
+    emits = [c for c in LM.calls if c.callee in ('logging.log',) or (c.name == 'log' and 'logging' in tq.text(c.recv or ('undef',)))]
+    lvl = ('param', lm_.call_params()[0])
+    ctx.check(bool(emits) and all(list(c.args.values())[:1] == [lvl] for c in emits)
+              and not any(c.name in ('debug', 'info', 'warning', 'error', 'critical', 'exception') and 'logging' in tq.text(c.recv or ('undef',))
+                          for c in LM.calls), 'Z4', 'IkeSa.log_msg emits at the level it is given', key=('Z4', 'log_msg'),
+              site=ctx.site(lm_, lm_.node), detail={'levels': [tq.text(list(c.args.values())[0], 120) for c in emits if c.args]})
 
 
 MANIFEST = {
